@@ -34,27 +34,30 @@ func rulePublishWaitsWhereTheAckDecides(c *eng.Ctx) {
 		c.Check(ok, "a publish to a stream with concurrency control waits for its ack", c.Pos(pc.(ssa.Instruction)), "a.publish(…, waitForAck = partition.log.IsConcurrencyControlEnabled(), …)", "publishToStream does not tell publish whether the partition has optimistic concurrency control: a Publish without a deadline fires and forgets, and the caller gets an empty success although the leader rejected the message for an incorrect expected offset")
 	}
 	if pf := c.Fn("server.(*apiServer).publish"); pf != nil {
-		must := eng.BoolEdges(pf, eng.Param("waitForAck"), true)
-		forget := eng.IsCallTo("github.com/nats-io/nats.go.Conn.Publish")
-		q := &eng.PathQuery{Fn: pf, FromEdges: must, Target: func(x ssa.Instruction) bool {
-			r, isR := x.(*ssa.Return)
-			if !isR {
-				return false
-			}
-			rv := eng.RetVals(r)
-			return len(rv) == 2 && eng.NilConst(rv[0]) && eng.NilConst(rv[1])
-		}, CutEdgeFn: func(e eng.Edge) bool { return false }}
-		_ = forget
-		// a caller that has to wait gets an empty success only for AckPolicy NONE
-		none := eng.EdgesWhere(pf, func(av eng.AtomView) bool {
-			return av.RelHolds(eng.Param("ackPolicy"), func(v ssa.Value) bool {
+		// the empty success is answered only where the policy is NONE or the caller does not have to wait — whichever way
+		// the condition is written (one expression, nested ifs, a flag computed first)
+		free := eng.EdgesWhere(pf, func(av eng.AtomView) bool {
+			if av.RelHolds(eng.Param("ackPolicy"), func(v ssa.Value) bool {
 				k, ok := eng.Strip(v).(*ssa.Const)
 				return ok && eng.EnumName(k) == "AckPolicy_NONE"
-			}, eng.EQ)
+			}, eng.EQ) {
+				return true
+			}
+			return !av.Cmp && av.Val != nil && eng.Param("waitForAck")(av.Val) && !av.Pol
 		})
-		q.CutEdges = none
-		w := q.Find()
-		c.Check(w == nil && len(must) > 0, "publish fires and forgets only when nobody has to wait", c.P.Pos(pf.Pos()), "ackPolicy == NONE || !(hasDeadline || waitForAck)", "apiServer.publish answers (nil, nil) although the caller has to wait for the ack ("+w.String()+")")
+		n := 0
+		for _, r := range eng.Returns(pf) {
+			rv := eng.RetVals(r)
+			if len(rv) != 2 || !eng.NilConst(rv[0]) || !eng.NilConst(rv[1]) {
+				continue
+			}
+			n++
+			g, w := eng.GuardedBy(pf, r, free)
+			c.Check(g && len(free) > 0, "publish fires and forgets only when nobody has to wait", c.Pos(r), "ackPolicy == NONE || !(hasDeadline || waitForAck)", "apiServer.publish answers (nil, nil) although the caller has to wait for the ack ("+w.String()+")")
+		}
+		if n == 0 {
+			c.Unresolved("the fire-and-forget return of apiServer.publish")
+		}
 	}
 }
 
